@@ -975,10 +975,18 @@ impl FunctionCompiler<'_> {
                     (len, source)
                 };
 
-                let is_good_index =
+                // an index type wider than a pointer (u128) is compared before it is truncated
+                let wide_index_ty = self.builder.func.dfg.value_type(index);
+                let is_good_index = if wide_index_ty.bits() > self.ptr_ty.bits() {
+                    let wide_len = self.builder.ins().uextend(wide_index_ty, len);
                     self.builder
                         .ins()
-                        .icmp(IntCC::UnsignedLessThan, naive_index, len);
+                        .icmp(IntCC::UnsignedLessThan, index, wide_len)
+                } else {
+                    self.builder
+                        .ins()
+                        .icmp(IntCC::UnsignedLessThan, naive_index, len)
+                };
 
                 self.compile_unreachablez(
                     is_good_index,
